@@ -64,7 +64,10 @@ EXC = {"Exception": Exception, "BaseException": BaseException, "StopIteration": 
        "KeyboardInterrupt": KeyboardInterrupt, "KeyError": KeyError, "LookupError": LookupError,
        "ValueError": ValueError, "FalsyError": FalsyError, "CustomBase": type("CustomBase", (BaseException,), {}),
        "CustomRuntime": type("CustomRuntime", (RuntimeError,), {}),
-       "CustomStop": type("CustomStop", (StopAsyncIteration,), {})}
+       "CustomStop": type("CustomStop", (StopAsyncIteration,), {}),
+       # an application-level "shut down now" exception derived from GeneratorExit: NOT the interpreter closing a
+       # generator, so it is thrown into the generator like any other exception of the block
+       "CustomGenExit": type("CustomGenExit", (GeneratorExit,), {})}
 
 
 class ValueEqError(Exception):
@@ -373,7 +376,7 @@ def variations(draw):
             "handler": draw(st.sampled_from(HANDLERS + ["raise-cause", "raise-equal", "raise-equal"])),
             "after": draw(st.sampled_from(AFTER)),
             "block": draw(st.sampled_from(BLOCK + ["KeyError", "LookupError", "ValueError", "CustomBase",
-                                                   "CustomRuntime", "CustomStop", "ValueEq", "ValueEq"])),
+                                                   "CustomRuntime", "CustomStop", "ValueEq", "ValueEq", "CustomGenExit", "CustomGenExit"])),
             "susp": draw(st.integers(0, 2)), "value": draw(st.sampled_from(["VALUE", None, 0, ""])),
             "use": draw(st.sampled_from(["with", "with", "decorator"])),
             "call": draw(st.sampled_from(sorted(CALLS))), "body_call": draw(st.sampled_from(sorted(CALLS))),
